@@ -17,17 +17,17 @@ RefOpsF == {"ref_dangling", "ref_self", "ref_parent", "ref_wrong_kind", "ref_sca
 NilDeref == "runtime error: invalid memory address or nil pointer dereference"
 NoName == "unable to resolve reference to name"
 
-(* nodes of the base document holding (or lying under) a position the loader never resolves: a reference  *)
+(* paths in the base document holding (or lying under) a position the loader never resolves: a reference  *)
 (* put there by any reference operator stays nil and is dereferenced later                                  *)
-UnresolvedRefNodes == {13, 17, 27, 46, 57, 173}
+UnresolvedRefPaths == {"components/examples/E", "components/headers/Rate", "components/parameters/Id", "components/requestBodies/Body/content/multipart/form-data/encoding/f/headers/X-P", "components/responses/Ok", "paths//items/{id}/get/responses/4XX/headers/X-R"}
 (* (operator, node) points at which a null / truncated entry is dereferenced *)
-KnownNullPoints == {<<"to_null", 2>>, <<"to_null", 13>>, <<"to_null", 16>>, <<"to_null", 22>>, <<"to_null", 43>>, <<"to_null", 46>>, <<"to_null", 167>>, <<"to_null", 195>>, <<"to_null", 198>>, <<"to_null", 204>>, <<"truncate_here", 166>>}
-IsKnownNilPoint(m) == (m.op \in RefOpsF /\ m.node \in UnresolvedRefNodes) \/ <<m.op, m.node>> \in KnownNullPoints
+KnownNullPoints == {<<"to_null", "components">>, <<"to_null", "components/examples/E">>, <<"to_null", "components/headers">>, <<"to_null", "components/links/L">>, <<"to_null", "components/requestBodies/Body/content/multipart/form-data/encoding/f">>, <<"to_null", "components/requestBodies/Body/content/multipart/form-data/encoding/f/headers/X-P">>, <<"to_null", "paths//items/{id}/get/responses/4XX/content/application/json/examples/e">>, <<"to_null", "servers/0">>, <<"to_null", "servers/0/variables/sub">>, <<"to_null", "tags/0">>, <<"truncate_here", "paths//items/{id}/get/responses/4XX/content/application/json/examples">>}
+IsKnownNilPoint(m) == (m.op \in RefOpsF /\ m.path \in UnresolvedRefPaths) \/ <<m.op, m.path>> \in KnownNullPoints
 
 Panicked(obs) == {s \in DOMAIN obs : obs[s] = "panic"}
 
 Class(line, bad) ==
-   LET ms == line.c.muts  msg == IF "msg" \in DOMAIN line THEN line.msg ELSE "" IN
+   LET ms == (IF "applied" \in DOMAIN line THEN line.applied ELSE <<>>)  msg == IF "msg" \in DOMAIN line THEN line.msg ELSE "" IN
    IF bad # {"returns_normally"} \/ \E s \in DOMAIN line.obs : line.obs[s] \in {"hang", "crash"} THEN "none"
    ELSE IF msg = NoName /\ Panicked(line.obs) = {"internalize"} /\ \E i \in DOMAIN ms : ms[i].op \in RefOpsF
         THEN "internalize_panics_unresolvable_ref_name"
